@@ -22,7 +22,7 @@ from fiddle._src.codegen.auto_config import experimental_top_level_api as ac_cod
 from harness import common, l2, c02, c09, c10
 from harness.common import Failure, Result, Stream, g_list, g_pair, g_N, g_nat
 
-COQ_TARGETS = ["theories/C12Check.vo"]
+COQ_TARGETS = ["theories/C12Check.vo", "theories/C11Hyps.vo"]
 TRUSTED_BASE = ["libcst (printing of the CST) and Python's compile / import of the emitted module are exercised, not "
                 "modelled; the Coq model covers the shared-nodes-to-variables pass and expression emission at the "
                 "level of a constructor-expression language (Codegen.v); sub-fixture extraction, naming, import "
@@ -136,6 +136,17 @@ def gen_config(rng):
           setattr(b, rng.choice(names), copy.copy(v) if isinstance(v, (set, dict)) else v)
         except (AttributeError, TypeError):
           pass
+  # one tuple that holds a mutable node, referenced by two parents under the SAME attribute / key / index
+  if rng.random() < 0.25:
+    mut = rng.choice([[1, 2], {"k": 1}, fdl.Config(l2.Ka, p=rng.randint(0, 9))])
+    t = (mut, rng.randint(0, 9))
+    how = rng.random()
+    if how < 0.4:
+      root = fdl.Config(l2.fd, a=fdl.Config(l2.Ka, p=t), b=fdl.Config(l2.Kb, p=t), rest=root)
+    elif how < 0.7:
+      root = fdl.Config(l2.fd, a=[t, 1], b=[t, 2], rest=root)
+    else:
+      root = fdl.Config(l2.fd, a={"k": t}, b={"k": t, "j": 0}, rest=root)
   # ArgFactory inside Partial
   if rng.random() < 0.2:
     root = fdl.Partial(l2.fa, a=fdl.ArgFactory(l2.Ka, p=root), b=fdl.ArgFactory(l2.fd))
@@ -150,6 +161,21 @@ def gen_config(rng):
             except (AttributeError, TypeError):
               pass
   return root
+
+
+def adversarial_names_config(rng):
+  """Argument names that coincide with names the emitted module also uses for something else: the imported
+  module (`l2`), `fdl`, `functools`, `auto_config`, the fixture names; a shared node under such a name
+  becomes a variable / parameter with that name.  (fd accepts any keyword.)"""
+  shared = fdl.Config(l2.Ka, p=rng.randint(0, 9), q=[1])
+  names = rng.sample(["l2", "fdl", "functools", "auto_config", "config_fixture", "sub_fixture_0", "harness"],
+                     rng.randint(1, 3))
+  same = rng.random() < 0.6      # the shared node sits under the same name in both sub-configurations
+  inner = fdl.Config(l2.fd, **{names[0]: shared}, other=rng.randint(0, 5))
+  second = fdl.Config(l2.fd, **{(names[0] if same else names[-1]): shared, "k": [rng.randint(0, 5)]})
+  root = fdl.Config(l2.fd, first=inner, second=second, **({names[0]: shared} if rng.random() < 0.3 else {}))
+  subs = {"sub_fixture_0": inner, "sub_fixture_1": second} if rng.random() < 0.7 else None
+  return root, subs
 
 
 def pick_sub_fixtures(rng, root):
@@ -222,62 +248,63 @@ def classify(root, gen, problem, rebuilt, subs):
   return None
 
 
-def one_config(rng, res, idx, counter):
-  root = gen_config(rng)
+def one_config(rng, res, idx, counter, adversarial=False):
+  root, forced_subs = adversarial_names_config(rng) if adversarial else (gen_config(rng), None)
   if tagged_unset(root):
     res.count("outside-precondition:tagged-unset")
     return None
   before = canon(root)
-  subs = pick_sub_fixtures(rng, root)
-  complexity = rng.choice([None, None, 0, 1, 2, 3, 5, 8])
-  history = rng.random() < 0.3
   results = {}
-  for gen in ("new", "auto"):
-    res.evaluations += 1
-    res.count(f"generator:{gen}")
-    label = f"cfg#{idx}/{gen}"
-    replay = {"label": label, "generator": gen, "config": repr(root)[:1500],
-              "sub_fixtures": None if subs is None else {k: repr(v)[:200] for k, v in subs.items()},
-              "max_expression_complexity": complexity, "include_history": history}
-    fn = new_codegen.new_codegen if gen == "new" else ac_codegen.auto_config_codegen
-    try:
-      with contextlib.redirect_stdout(io.StringIO()):   # the library prints diagnostics on failure
-        code = fn(root, sub_fixtures=subs, max_expression_complexity=complexity, include_history=history)
-    except Exception as e:  # pylint: disable=broad-except
-      res.count(f"rejected:{gen}:{type(e).__name__}")
-      if canon(root) != before:
-        res.failures.append(Failure(None, f"C12 {label}: the rejected configuration was modified", replay))
-      continue
-    replay["code"] = code[:3000]
-    if canon(root) != before:
-      res.failures.append(Failure(None, f"C12 {label}: the generator modified its input", replay))
-      continue
-    counter[0] += 1
-    problem = None
-    rebuilt = None
-    try:
-      compile(code, "<emitted>", "exec")
-    except SyntaxError as e:
-      problem = f"the emitted module does not compile: {e}"
-    if problem is None:
+  option_sets = [(None, None, False),
+                 (forced_subs if adversarial else pick_sub_fixtures(rng, root),
+                  rng.choice([None, None, 0, 1, 2, 3, 5, 8]), rng.random() < 0.3)]
+  for subs, complexity, history in option_sets:
+    for gen in ("new", "auto"):
+      res.evaluations += 1
+      res.count(f"generator:{gen}")
+      label = f"cfg#{idx}/{gen}"
+      replay = {"label": label, "generator": gen, "config": repr(root)[:1500],
+                "sub_fixtures": None if subs is None else {k: repr(v)[:200] for k, v in subs.items()},
+                "max_expression_complexity": complexity, "include_history": history}
+      fn = new_codegen.new_codegen if gen == "new" else ac_codegen.auto_config_codegen
       try:
-        mod = load_module(code, counter[0])
-        fx = getattr(mod, "config_fixture")
-        rebuilt = fx() if gen == "new" else fx.as_buildable()
+        with contextlib.redirect_stdout(io.StringIO()):   # the library prints diagnostics on failure
+          code = fn(root, sub_fixtures=subs, max_expression_complexity=complexity, include_history=history)
       except Exception as e:  # pylint: disable=broad-except
-        problem = f"executing the emitted module raised {type(e).__name__}: {e}"
-    if problem is None and canon(rebuilt) != before:
-      problem = "the emitted module yields a configuration that differs in callables, arguments, tags or sharing"
-    if problem is None:
-      res.count(f"faithful:{gen}")
-      results[gen] = code
-    else:
-      res.failures.append(Failure(classify(root, gen, problem, rebuilt, subs), f"C12 {label}: {problem}", replay))
-    if subs or complexity is not None:
-      res.nontrivial({"c": before, "g": gen, "s": sorted(subs) if subs else None, "x": complexity, "h": history})
+        res.count(f"rejected:{gen}:{type(e).__name__}")
+        if canon(root) != before:
+          res.failures.append(Failure(None, f"C12 {label}: the rejected configuration was modified", replay))
+        continue
+      replay["code"] = code[:3000]
+      if canon(root) != before:
+        res.failures.append(Failure(None, f"C12 {label}: the generator modified its input", replay))
+        continue
+      counter[0] += 1
+      problem = None
+      rebuilt = None
+      try:
+        compile(code, "<emitted>", "exec")
+      except SyntaxError as e:
+        problem = f"the emitted module does not compile: {e}"
+      if problem is None:
+        try:
+          mod = load_module(code, counter[0])
+          fx = getattr(mod, "config_fixture")
+          rebuilt = fx() if gen == "new" else fx.as_buildable()
+        except Exception as e:  # pylint: disable=broad-except
+          problem = f"executing the emitted module raised {type(e).__name__}: {e}"
+      if problem is None and canon(rebuilt) != before:
+        problem = "the emitted module yields a configuration that differs in callables, arguments, tags or sharing"
+      if problem is None:
+        res.count(f"faithful:{gen}")
+        results[gen] = code
+      else:
+        res.failures.append(Failure(classify(root, gen, problem, rebuilt, subs), f"C12 {label}: {problem}", replay))
+      if subs or complexity is not None:
+        res.nontrivial({"c": before, "g": gen, "s": sorted(subs) if subs else None, "x": complexity, "h": history})
   if len(res.samples) < 3 and results:
     res.samples.append({"config": repr(root)[:400], "code": next(iter(results.values()))[:600]})
-  return root, results, subs, complexity, history
+  return root, results
 
 
 # ---- fail-closed translator: emitted module text -> Lang.program ----------------------------------
@@ -477,7 +504,8 @@ def run(tier: str, seed: int) -> Result:
   res.rule = ("random configurations (Config / Partial / ArgFactory inside Partial, tags, shared nodes and shared "
               "containers, enum / type / function leaves, special floats, complex, bytes, sets, tuple dict keys) x "
               "both generators x random sub-fixture subsets (up to 3) x max_expression_complexity in "
-              "{None,0,1,2,3,5,8} x history on/off; the emitted module is compiled, imported and its fixture "
+              "{None,0,1,2,3,5,8} x history on/off, and the default options; argument names that coincide with "
+              "module / fixture names of the emitted module; the emitted module is compiled, imported and its fixture "
               "called; plus py_val_to_cst_converter on random values; non-trivial = sub-fixtures or a complexity "
               "threshold in use")
   shutil.rmtree(MODDIR, ignore_errors=True)
@@ -487,13 +515,20 @@ def run(tier: str, seed: int) -> Result:
                   "From Fiddle Require Import PySlice Sig ArgStore PyCall Heap Traverse Build Lang Codegen C12Check.",
                   "C12Check.case", "C12Check.check_case")
   res.streams.append(stream)
+  hyp_stream = Stream("c12_theorem_hypotheses",
+                      "From Fiddle Require Import PySlice Sig ArgStore PyCall Heap Traverse Build Lang Codegen C12Check C11Hyps.",
+                      "C12Check.case", "C11Hyps.hyps_c12", informational=True)
+  res.streams.append(hyp_stream)
   n = 150 if tier == "quick" else 3000
   try:
     for i in range(n):
       one_config(rng, res, i, counter)
+    for i in range(n // 5):
+      one_config(rng, res, n + i, counter, adversarial=True)
     value_expression_stream(rng, res, 300 if tier == "quick" else 6000)
     for i in range(300 if tier == "quick" else 6000):
       correspondence_case(rng, res, intern, stream, i)
   finally:
     shutil.rmtree(MODDIR, ignore_errors=True)
+  hyp_stream.cases, hyp_stream.meta = stream.cases, stream.meta
   return res
